@@ -19,7 +19,7 @@ ASSUMPTIONS = ["np.argsort returns a sorting permutation (checked in Coq per cas
 SKIPPED = [0]
 
 
-def cases(tier, rng, dist):
+def _cases(tier, rng, dist):
     nm = 6 if tier == "quick" else 20
     sizes = [3] if tier == "quick" else [3, 4]
     for j in sizes:
@@ -46,7 +46,7 @@ def cases(tier, rng, dist):
                "perm_seed": rng.randint(0, 10**6)}
 
 
-def run(c):
+def _run(c):
     p = [Fraction(x) for x in c["p"]]
     m = [[Fraction(v) for v in r] for r in c["distr"]]
     pv = interned(np.array([float(x) for x in p])); d = interned(np.array([[float(v) for v in r] for r in m]))
@@ -126,3 +126,47 @@ def nontrivial(c, o):
 
 def key(c):
     return json.dumps(c, sort_keys=True)
+
+
+# ---- failure paths (round 12): every third case is preceded by calls that the library rejects, or that fail inside a user
+# callable; they raise on the unchanged tree and must leave nothing behind (common.fail_first) ----
+
+def failing_calls(c):
+    pv = interned(np.array([float(Fraction(x)) for x in c["p"]])); d = interned(np.array([[float(Fraction(v)) for v in r] for r in c["distr"]]))
+    k = c["ff"] % 3
+    n = len(c["p"])
+    def fixed_len(p):
+        if len(p) != n:
+            raise ValueError("combining function written for exactly %d p-values" % n)
+        return -2 * float(np.sum(np.log(p)))
+    def aborting(p):
+        if len(p) < n:
+            raise Abort()
+        return -2 * float(np.sum(np.log(p)))
+    # the SAME argument objects as the valid call that follows (interned arrays): a call aborted inside the step-down must leave them intact
+    return [[("unknown combining function name", lambda: NPC.fwer_minp(pv, d, "Fisher", plus1=c["plus1"])),
+             ("combining function rejects the first nested subset", lambda: NPC.fwer_minp(pv, d, fixed_len, plus1=c["plus1"])),
+             ("combining function aborts on the first nested subset", lambda: NPC.fwer_minp(pv, d, aborting, plus1=c["plus1"]))][k],
+            ("p-values and distr of different widths", lambda: NPC.fwer_minp(np.array([0.5, 0.2, 0.1, 0.7, 0.9]), d[:, :1], "fisher")),
+            ("watch", [pv, d])]
+
+
+def cases(tier, rng, dist):
+    return mark_ff(_cases(tier, rng, dist))
+
+
+_oracle_plain = oracle
+
+
+def oracle(c, o):
+    if ff_args_modified(o):
+        return {"why": f"a fwer_minp call that was rejected / aborted inside the step-down left the caller's pvalues or distr modified: {o['ff']}", "cls": "fwer_minp:input-modified"}
+    return _oracle_plain(c, o)
+
+
+def run(c):
+    ff = fail_first(failing_calls(c)) if "ff" in c else None
+    o = _run(c)
+    if ff is not None and isinstance(o, dict):
+        o["ff"] = ff
+    return o
